@@ -38,13 +38,13 @@
 EXTENDS Integers, Sequences, FiniteSets, TLC, Json
 Trace == ndJsonDeserialize("trace.ndjson")
 ASSUME TLCSet(1, {})
-VARIABLES l, regd, killed, wedged, deadFrom, liveFrom, unregAt, lastEmpty, rstart, rarr
-vars == <<l, regd, killed, wedged, deadFrom, liveFrom, unregAt, lastEmpty, rstart, rarr>>
-hv == <<regd, killed, wedged, deadFrom, liveFrom, unregAt, rstart, rarr>>
+VARIABLES l, regd, killed, wedged, deadFrom, liveFrom, unregAt, resetAt, resetOpen, lastReset, lastEmpty, rstart, rarr
+vars == <<l, regd, killed, wedged, deadFrom, liveFrom, unregAt, resetAt, resetOpen, lastReset, lastEmpty, rstart, rarr>>
+hv == <<regd, killed, wedged, deadFrom, liveFrom, unregAt, resetAt, rstart, rarr>>
 FlagAll(S) == IF S = {} THEN TRUE ELSE TLCSet(1, TLCGet(1) \cup S)
 SetOf(q) == {q[i] : i \in 1..Len(q)}
 Put(f, k, v) == [x \in DOMAIN f \cup {k} |-> IF x = k THEN v ELSE f[x]]
-Init == /\ l = 1 /\ regd = {} /\ killed = {} /\ wedged = {} /\ deadFrom = <<>> /\ liveFrom = <<>> /\ unregAt = <<>> /\ lastEmpty = 0
+Init == /\ l = 1 /\ regd = {} /\ killed = {} /\ wedged = {} /\ deadFrom = <<>> /\ liveFrom = <<>> /\ unregAt = <<>> /\ resetAt = <<>> /\ resetOpen = {} /\ lastReset = 0 /\ lastEmpty = 0
         /\ rstart = <<>> /\ rarr = <<>>
 
 OnUpdate(e) ==
@@ -53,7 +53,7 @@ OnUpdate(e) ==
   /\ UNCHANGED liveFrom
   /\ unregAt' = [k \in DOMAIN unregAt \cup (regd \ keys) |-> IF k \in DOMAIN unregAt THEN unregAt[k] ELSE l]
   /\ FlagAll(IF e.can # (keys # {}) THEN {<<l, "cmc", "", Cardinality(keys)>>} ELSE {})
-  /\ UNCHANGED <<killed, wedged, deadFrom, rstart, rarr>>
+  /\ UNCHANGED <<killed, wedged, deadFrom, resetAt, rstart, rarr>>
 
 OnRpcEnd(e) ==
   LET r == e.r
@@ -69,8 +69,12 @@ OnRpcEnd(e) ==
       \* registered at some point of the call (nothing tells the client before the transport notices)
       racing == SubSeq(r, 1, 1) = "c"
       staleDuring == \E k \in killed : k \notin DOMAIN unregAt \/ unregAt[k] >= s
+      \* the peer reset the gRPC transport (one yamux stream; the session stays) the call was in flight on
+      resetUnder == reached \in DOMAIN resetAt /\ resetAt[reached] >= s
+      \* a racing call may have been sent on a transport between its reset and the client's re-dial (Redial event)
+      resetDuring == lastReset >= s
   IN /\ FlagAll(CASE e.code = "OK" -> IF inSetDuring(e.k) /\ reached = e.k THEN {} ELSE {<<l, "served", r, e.k>>}
-                  [] e.code = "Unavailable" -> IF emptyDuring \/ killedUnder \/ (racing /\ staleDuring) THEN {} ELSE {<<l, "unavail", r, reached>>}
+                  [] e.code = "Unavailable" -> IF emptyDuring \/ killedUnder \/ resetUnder \/ (racing /\ (staleDuring \/ resetDuring)) THEN {} ELSE {<<l, "unavail", r, reached>>}
                   [] OTHER -> {<<l, "rpcerr", r, 0>>})
      /\ UNCHANGED hv
 
@@ -83,16 +87,17 @@ OnQuiet(e) ==
   /\ UNCHANGED hv
 
 Step(e) ==
-  CASE e.ev = "Config" -> /\ regd' = {} /\ killed' = {} /\ wedged' = {} /\ deadFrom' = <<>> /\ liveFrom' = <<>> /\ unregAt' = <<>>
+  CASE e.ev = "Config" -> /\ regd' = {} /\ killed' = {} /\ wedged' = {} /\ deadFrom' = <<>> /\ liveFrom' = <<>> /\ unregAt' = <<>> /\ resetAt' = <<>>
                           /\ rstart' = <<>> /\ rarr' = <<>>
     [] e.ev = "Update" -> OnUpdate(e)
     [] e.ev = "Cmd" /\ e.a = "Add" -> /\ liveFrom' = Put(liveFrom, e.k, l)     \* logged before the conn is handed to the pool
                                        /\ wedged' = (IF e.w THEN wedged \cup {e.k} ELSE wedged)
-                                       /\ UNCHANGED <<regd, killed, deadFrom, unregAt, rstart, rarr>>
+                                       /\ UNCHANGED <<regd, killed, deadFrom, unregAt, resetAt, rstart, rarr>>
     [] e.ev = "Cmd" /\ e.a = "Kill" -> /\ killed' = killed \cup {e.k} /\ deadFrom' = Put(deadFrom, e.k, l)
-                                        /\ UNCHANGED <<regd, wedged, liveFrom, unregAt, rstart, rarr>>
-    [] e.ev = "RpcStart" -> rstart' = Put(rstart, e.r, l) /\ UNCHANGED <<regd, killed, wedged, deadFrom, liveFrom, unregAt, rarr>>
-    [] e.ev = "RpcArrive" -> rarr' = Put(rarr, e.r, e.k) /\ UNCHANGED <<regd, killed, wedged, deadFrom, liveFrom, unregAt, rstart>>
+                                        /\ UNCHANGED <<regd, wedged, liveFrom, unregAt, resetAt, rstart, rarr>>
+    [] e.ev = "Cmd" /\ e.a = "Reset" -> resetAt' = Put(resetAt, e.k, l) /\ UNCHANGED <<regd, killed, wedged, deadFrom, liveFrom, unregAt, rstart, rarr>>
+    [] e.ev = "RpcStart" -> rstart' = Put(rstart, e.r, l) /\ UNCHANGED <<regd, killed, wedged, deadFrom, liveFrom, unregAt, resetAt, rarr>>
+    [] e.ev = "RpcArrive" -> rarr' = Put(rarr, e.r, e.k) /\ UNCHANGED <<regd, killed, wedged, deadFrom, liveFrom, unregAt, resetAt, rstart>>
     [] e.ev = "RpcEnd" -> OnRpcEnd(e)
     [] e.ev = "Quiet" -> OnQuiet(e)
     [] e.ev = "Spread" -> /\ FlagAll(IF ~e.broken /\ ~(SetOf(e.table) \subseteq SetOf(e.served))
@@ -103,6 +108,10 @@ Next == /\ l <= Len(Trace) /\ l' = l + 1
         /\ LET e == Trace[l] IN
            /\ Step(e)
            \* the set after this line
+           /\ resetOpen' = (IF e.ev = "Config" THEN {}
+                            ELSE IF e.ev = "Cmd" /\ e.a = "Reset" THEN resetOpen \cup {e.k}
+                            ELSE IF e.ev = "Redial" THEN resetOpen \ {e.k} ELSE resetOpen)
+           /\ lastReset' = (IF e.ev = "Config" THEN 0 ELSE IF resetOpen # {} \/ resetOpen' # {} THEN l ELSE lastReset)
            /\ lastEmpty' = IF e.ev = "Config" THEN l ELSE IF (regd' \ killed') \ wedged' = {} THEN l ELSE lastEmpty
 Spec == Init /\ [][Next]_vars
 Report == PrintT(<<"OBS_VIOLATIONS", TLCGet(1)>>) /\ PrintT(<<"OBS_TRACE_LEN", Len(Trace)>>)
